@@ -7,7 +7,7 @@
    close(); it is tied to the code by replaying real traces, in which a raise would be an event the
    model refuses.  Termination of OS threads: see C15. *)
 From Coq Require Import List NArith ZArith Bool Lia.
-From Ynca Require Import Model.Life Proofs.LifeFacts.
+From Ynca Require Import Model.Life Proofs.LifeFacts Proofs.LifeMore.
 From Ynca Require Import Gen.Params.
 Import ListNotations.
 Local Open Scope Z_scope.
@@ -103,3 +103,16 @@ Example C16_nonvacuous :
      KJoinEndA 1; KPortCloseA 1; KUnlockA 1; KReturn 1] = Some s
   /\ g_disc_calls s = O /\ l_open s = false /\ g_closed_returned s = true.
 Proof. eexists. split; [vm_compute; reflexivity|repeat split]. Qed.
+
+(* a close() in progress on thread tid is moved only by its own steps, each of which moves it strictly forward:
+   it needs at most seven steps after it started, one of them a lock acquisition and one a join with a finite
+   deadline (C16_close_never_blocks_forever) *)
+Theorem C16_close_progress_measure :
+  forall tid s a s', closer_step tid a = true -> lstep s a = Some s' -> (kr tid s' < kr tid s)%nat.
+Proof. exact (closer_strict p_join_sender p_join_reader). Qed.
+Print Assumptions C16_close_progress_measure.
+
+Theorem C16_close_not_disturbed_by_others :
+  forall tid s a s', closer_step tid a = false -> closer_start tid a = false -> lstep s a = Some s' -> kr tid s' = kr tid s.
+Proof. exact (closer_untouched p_join_sender p_join_reader). Qed.
+Print Assumptions C16_close_not_disturbed_by_others.
